@@ -27,6 +27,12 @@ pub struct Policy {
     pub p_byz: f64,
     pub p_sync: f64,
     pub p_forged_sync: f64,
+    /// isolate one correct node (the others still form a quorum) for the first half of the case, then resume block sync for it
+    /// with forged re-submissions of parked blocks
+    pub laggard: bool,
+    /// the isolated node is one the correct nodes NEED for a quorum: Byzantine validators vote like honest ones meanwhile and
+    /// poison it with old certificates (C06)
+    pub poisoned_laggard: bool,
     pub p_crash: f64,
     pub partition_period: usize,
     pub hidden_commit: bool,
@@ -55,6 +61,8 @@ impl Policy {
             p_byz: 0.0,
             p_sync: 0.02,
             p_forged_sync: 0.0,
+            laggard: false,
+            poisoned_laggard: false,
             p_crash: 0.0,
             partition_period: 0,
             hidden_commit: false,
@@ -123,6 +131,8 @@ pub struct Director {
     res: CaseResult,
     crashed_once: bool,
     down: Vec<bool>,
+    /// (node, step at which its isolation ends)
+    laggard: Option<(usize, usize)>,
 }
 
 impl Director {
@@ -145,6 +155,7 @@ impl Director {
             hidden_lossy_views: 0,
             hidden_loss_pct: 0,
             steer: None,
+            laggard: None,
             res: CaseResult::default(),
             crashed_once: false,
             down: vec![false; n],
@@ -292,7 +303,8 @@ impl Director {
         };
         if pick(pol.p_byz) {
             let cur = self.cur_view();
-            if let Some(cr) = byz::craft(&mut self.rng, &self.c, &mut self.know, &correct, cur, pol.extreme) {
+            let laggard = correct.iter().copied().filter(|i| self.w.node(*i).alive).map(|i| (i, self.node_view[i])).min_by_key(|x| x.1);
+            if let Some(cr) = byz::craft(&mut self.rng, &self.c, &mut self.know, &correct, cur, pol.extreme, laggard, pol.poisoned_laggard && self.laggard.is_some()) {
                 self.count(&format!("byz_{}", cr.what));
                 if let Some((v, hx, hy)) = cr.steer {
                     if self.rng.gen_bool(0.7) {
@@ -362,10 +374,29 @@ impl Director {
     async fn sync_some(&mut self, p_forged: f64) {
         let correct = self.w.correct();
         let i = *correct.choose(&mut self.rng).unwrap();
-        if !self.w.node(i).alive {
+        if !self.w.node(i).alive || self.laggard.map(|l| l.0) == Some(i) {
             return;
         }
         let next = self.w.node(i).manager.as_ref().map(|m| m.queued().next().0).unwrap_or(0);
+        if self.rng.gen_bool(p_forged) && self.rng.gen_bool(0.4) {
+            // a genuine block ahead of the gap is offered and its call cancelled while it waits; the gap closes; then the same
+            // certificate comes back with another payload - every submission has to be verified in full, whatever was seen before
+            // (taken for the correct node that lags most)
+            let i = *correct.iter().filter(|i| self.w.node(**i).alive).min_by_key(|i| self.w.height(**i)).unwrap_or(&i);
+            let next = self.w.node(i).manager.as_ref().map(|m| m.queued().next().0).unwrap_or(0);
+            let (a, b) = (self.mon.committed_blocks.get(&next).cloned(), self.mon.committed_blocks.get(&(next + 1)).cloned());
+            self.count(if a.is_some() && b.is_some() { "parked_resubmission_attempts_with_two_blocks_of_lag" } else { "parked_resubmission_attempts_without_enough_lag" });
+            if let (Some(a), Some(validator::Block::FinalV2(b))) = (a, b) {
+                let _ = self.w.sync_block_ahead(i, validator::Block::FinalV2(b.clone())).await;
+                let _ = self.w.sync_block(i, a).await;
+                let mut fb = b.clone();
+                fb.payload.0.push(1);
+                let r = self.w.sync_block_ahead(i, validator::Block::FinalV2(fb)).await;
+                self.count(if r.is_ok() { "forged_sync_accepted" } else { "forged_sync_refused" });
+                self.count("forged_resubmissions_of_a_parked_block");
+            }
+            return;
+        }
         if self.rng.gen_bool(p_forged) {
             // a peer offers a block that must be refused: tampered payload, or a certificate that is not a quorum
             if let Some(validator::Block::FinalV2(b)) = self.mon.committed_blocks.values().next().cloned() {
@@ -385,11 +416,40 @@ impl Director {
         }
     }
 
+    /// Block sync for a node that fell several blocks behind, served by a peer that lies: for every missing block the genuine
+    /// successor is offered first (it parks behind the gap and its call is cancelled), then the block itself, then the
+    /// successor's certificate again with another payload. Every submission must be verified in full.
+    async fn catch_up_with_forged_resubmissions(&mut self, v: usize) {
+        if !self.w.node(v).alive {
+            return;
+        }
+        for _ in 0..40 {
+            let next = self.w.node(v).manager.as_ref().map(|m| m.queued().next().0).unwrap_or(0);
+            let (a, b) = (self.mon.committed_blocks.get(&next).cloned(), self.mon.committed_blocks.get(&(next + 1)).cloned());
+            let Some(a) = a else { break };
+            if let Some(validator::Block::FinalV2(b)) = b {
+                let _ = self.w.sync_block_ahead(v, validator::Block::FinalV2(b.clone())).await;
+                let _ = self.w.sync_block(v, a).await;
+                let mut fb = b.clone();
+                fb.payload.0.push(1);
+                let r = self.w.sync_block_ahead(v, validator::Block::FinalV2(fb)).await;
+                self.count(if r.is_ok() { "forged_sync_accepted" } else { "forged_sync_refused" });
+                self.count("forged_resubmissions_of_a_parked_block");
+            } else {
+                let _ = self.w.sync_block(v, a).await;
+            }
+            self.settle().await;
+        }
+    }
+
     fn repartition(&mut self) {
         let n = self.c.n();
         let k = self.rng.gen_range(1..=3u8);
         for i in 0..n {
             self.groups[i] = self.rng.gen_range(0..k);
+        }
+        if let Some((v, _)) = self.laggard {
+            self.groups[v] = 200;
         }
         self.count("partition_changes");
     }
@@ -400,6 +460,28 @@ impl Director {
         let correct = self.w.correct();
         self.hidden = None;
         self.steer = None;
+        if let (true, Some((t, _))) = (self.pol.poisoned_laggard, self.laggard) {
+            // the last word of the adversary before the network heals: the isolated replica learns the NEWEST commit certificate
+            // inside a timeout certificate of the oldest view it still accepts, i.e. without leaving its old view
+            let tv = self.node_view[t];
+            let olds: Vec<u64> = self.know.timeouts.range(tv..).map(|x| *x.0).take(3).collect();
+            for old in olds {
+                if let Some(m) = byz::poison_new_view(&self.c, &mut self.know, old) {
+                    let id = self.net.msgs.len();
+                    self.net.msgs.push(m);
+                    self.do_deliver(id, t);
+                    self.settle().await;
+                    self.count("laggards_poisoned_right_before_the_heal");
+                    break;
+                }
+            }
+        }
+        self.laggard = None;
+        if self.pol.poisoned_laggard {
+            // whatever was sent to the isolated replica during the partition is lost, not delayed
+            self.net.inflight.clear();
+            self.count("heals_after_a_poisoned_laggard_prefix");
+        }
         for g in self.groups.iter_mut() {
             *g = 0;
         }
@@ -462,7 +544,7 @@ impl Director {
                 }
                 if !self.pol.byz_silent_in_suffix && self.rng.gen_bool(0.3) {
                     let cur = self.cur_view();
-                    if let Some(cr) = byz::craft(&mut self.rng, &self.c, &mut self.know, &correct, cur, false) {
+                    if let Some(cr) = byz::craft(&mut self.rng, &self.c, &mut self.know, &correct, cur, false, None, false) {
                         for (m, dests) in cr.msgs {
                             let id = self.net.msgs.len();
                             self.net.msgs.push(m);
@@ -521,10 +603,34 @@ impl Director {
             self.hidden_lossy_views = self.rng.gen_range(0..5);
             self.hidden_loss_pct = self.rng.gen_range(20..70);
         }
+        if self.pol.laggard || self.pol.poisoned_laggard {
+            let wsum = |v: &[usize]| v.iter().map(|i| self.c.w[*i] as u128).sum::<u128>();
+            let byzw: u128 = (0..self.c.n()).filter(|i| self.c.byz[*i]).map(|i| self.c.w[i] as u128).sum();
+            let cands: Vec<usize> = correct
+                .iter()
+                .copied()
+                .filter(|v| {
+                    let rest = wsum(&correct) - self.c.w[*v] as u128;
+                    if self.pol.poisoned_laggard { rest < self.c.quorum() && rest + byzw >= self.c.quorum() } else { rest >= self.c.quorum() }
+                })
+                .collect();
+            if let Some(v) = cands.choose(&mut self.rng) {
+                self.laggard = Some((*v, self.pol.steps / 2));
+                self.groups[*v] = 200;
+                self.count("cases_with_an_isolated_laggard");
+            }
+        }
         self.settle().await;
         for s in 0..self.pol.steps {
             if self.pol.partition_period > 0 && s % self.pol.partition_period == 0 {
                 self.repartition();
+            }
+            if let Some((v, until)) = self.laggard {
+                if s == until && !self.pol.poisoned_laggard {
+                    self.laggard = None;
+                    self.groups[v] = self.groups[correct.iter().copied().find(|i| *i != v).unwrap_or(v)];
+                    self.catch_up_with_forged_resubmissions(v).await;
+                }
             }
             self.step().await;
             if self.alerted() {
